@@ -1185,6 +1185,63 @@ void runOne(const sim::Options& opt, uint64_t run, sim::RunReport& rep) {
     bool simLevel = (run % 3) == 0 || g_bigReg;
     const std::string& property = opt.property;
     rep.count("runs");
+    if (simLevel && !g_bigReg && run % 96 == 15) {
+        // A history executed in a process that has never run a quantum operation: whatever the simulator keeps in
+        // process-wide state (memo tables, function-local statics) is then in its initial state. The history starts with the
+        // operations most likely to meet such state first: a rotation by exactly 0, a measurement, a reset.
+        sim::Rng fg(opt.seed, "fresh", run);
+        std::vector<SimOp> ops;
+        int nq = fg.range(1, 3);
+        for (int i = 0; i < nq; ++i) { SimOp a{}; a.kind = 0; ops.push_back(a); }
+        if (fg.chance(0.5)) { SimOp g0{}; g0.kind = 1; g0.q = 0; g0.gate = fg.chance(0.5) ? 0 : 1; ops.push_back(g0); }   // h or x first: the state is not |0...0>
+        SimOp r{};
+        r.kind = 1;
+        r.q = (int)fg.below((uint64_t)nq);
+        r.gate = 4 + (int)fg.below(3);
+        r.angle = fg.chance(0.7) ? 0.0 : (fg.chance(0.5) ? M_PI : 1.1);
+        ops.push_back(r);
+        if (nq > 1 && fg.chance(0.5)) { SimOp c{}; c.kind = 2; c.q = 0; c.q2 = 1; ops.push_back(c); }
+        SimOp m{};
+        m.kind = fg.chance(0.5) ? 3 : 4;
+        m.q = (int)fg.below((uint64_t)nq);
+        m.r64 = fg.next();
+        ops.push_back(m);
+        Json f = Json::object();
+        f.set("engine_property", property).set("seed", Json((unsigned long long)opt.seed)).set("run", Json((unsigned long long)run)).set("flavour", opt.flavour);
+        Json pj = planJson(true, ops, qh::Plan{});
+        pj.set("rng_seed", Json((unsigned long long)opt.seed)).set("rng_run", Json((unsigned long long)run)).set("log_on", true).set("fresh_process", true);
+        f.set("plan", pj);
+        std::string path = g_scratch + "/fresh-process.json";
+        sim::writeFile(path, f.dump());
+        auto classOf = [](const sim::ChildResult& r) -> std::string {
+            size_t p = r.out.find("REPLAY violation class=");
+            if (p != std::string::npos) { size_t e = r.out.find('\n', p); return r.out.substr(p + 23, (e == std::string::npos ? r.out.size() : e) - p - 23); }
+            if (r.out.find("REPLAY ok") != std::string::npos) return "";
+            return "fresh_process_run_crashed:" + sim::classifyCrash(r.status, r.err);
+        };
+        sim::Options child = opt;
+        child.mode.clear();
+        sim::ChildResult r1 = sim::execReplay(child, path);
+        std::string c1 = classOf(r1);
+        rep.count("sim.histories_in_a_fresh_process");
+        if (r.angle == 0.0) rep.count("sim.first_rotation_of_the_process_by_exactly_zero");
+        sim::Hash h;
+        h.addStr(pj.dump());
+        rep.sig = h.h;
+        rep.nontrivial = true;
+        if (!c1.empty()) {
+            sim::ChildResult r2 = sim::execReplay(child, path);
+            sim::Violation v;
+            v.cls = c1;
+            v.signature = "sim:" + c1;
+            size_t dp = r1.out.find("\n  ");
+            v.detail = "in a process that had not run any quantum operation before: " + (dp == std::string::npos ? std::string() : r1.out.substr(dp + 3, 300));
+            v.reproducible = classOf(r2) == c1;
+            v.plan = pj;
+            rep.violations.push_back(std::move(v));
+        }
+        return;
+    }
     if (simLevel) {
         g_rng.reset(opt.seed, run);
         g_rng.install();
@@ -1487,7 +1544,13 @@ int main(int argc, char** argv) {
     if (opt.property.empty()) opt.property = "C02";
     if (opt.flavour == "plain") opt.flavour = VERIF_FLAVOUR;
     g_scratch = std::string(getenv("TMPDIR") ? getenv("TMPDIR") : "/tmp") + "/blochsim.qhist." + std::to_string(getpid());
-    calibrateOrientation();
+    bool freshProcessPlan = false;
+    if (!opt.replay.empty()) {
+        std::string peek;
+        if (sim::readFile(opt.replay, peek) && (peek.find("\"fresh_process\": true") != std::string::npos || peek.find("\"fresh_process\":true") != std::string::npos)) freshProcessPlan = true;
+    }
+    if (freshProcessPlan) g_orientation = -1;   // no calibration run: the history must be the first quantum operations of this process
+    else calibrateOrientation();
     if (!opt.replay.empty()) {
         sim::mkdirs(g_scratch);
         int rc = doReplay(opt);
